@@ -25,6 +25,10 @@ import (
 //@   alloc data
 //@   ensures [total] true
 //@   ensures [value-inside-input] result2 == nil ==> len(result) <= len(data)
+//   C14: success implies that the stored checksum equals the CRC of exactly the header,
+//   key and value bytes, and the value handed out lies inside those checksummed bytes.
+//@   exit [checksum-gate] result2 == nil ==> 0 <= payloadEnd && payloadEnd + 4 <= len(data) && crc32c(data[:payloadEnd]) == be32(data[payloadEnd:])
+//@   exit [value-is-checksummed-bytes] result2 == nil ==> 0 <= valueStart && valueStart <= payloadEnd && len(result) == payloadEnd - valueStart && (forall i int :: 0 <= i && i < len(result) ==> result[i] == data[valueStart+i])
 
 //@ func (*ValuePtr).Decode
 //@   property C16
@@ -177,3 +181,32 @@ func verifHeaderMetaRoundTrip(meta byte, expiresAt uint64) bool {
 	m, err := d.Decode(buf[:n])
 	return err == nil && m == n && d == h
 }
+
+// Pooled CRC-32 hashers (kv.CRC32 / kv.PutCRC32, hash.Hash32): modelled by ghost state.
+// hashed is the byte sequence written since CRC32() handed the hasher out (exact for one
+// Write, an uninterpreted concatenation for more); Sum32 is the same uninterpreted
+// function crc32c that models hash/crc32.Checksum. Only one hasher is live at a time in
+// the functions under contract (trusted).
+//@ spec func bsconcat(a ByteSeq, b ByteSeq) ByteSeq
+//@ ghost var hashed ByteSeq
+//@ ghost var hashWrites Int
+//@ func CRC32
+//@   trusted
+//@   ensures [non-nil] result != nil
+//@   ghost hashWrites = 0
+//@   modifies nothing
+//@ func PutCRC32
+//@   trusted
+//@   tag ghost-pure
+//@   modifies nothing
+//@ func hash::(Hash32).Write
+//@   trusted
+//@   ensures [never-fails] err == nil && n == len(p)
+//@   ghost hashed = (hashWrites == 0 ? bs(p) : bsconcat(hashed, bs(p)))
+//@   ghost hashWrites = hashWrites + 1
+//@   modifies nothing
+//@ func hash::(Hash32).Sum32
+//@   trusted
+//@   tag ghost-pure
+//@   ensures [crc-of-written] result == crc32c(hashed)
+//@   modifies nothing
